@@ -53,4 +53,8 @@ def handle : List Sx → Sx
     | some xs, some s => Sx.ok (Sx.ofInt (sumF xs s))
     | _, _ => Sx.bad
   | _ => Sx.bad
+/-- request names served by this module (collected into `JinjaV.Wire.All` by tools/gen_wire_all.py) -/
+def handlers : List (String × (List Sx → Sx)) :=
+  [("filt", handle)]
+
 end JinjaV.Wire.FiltColl
